@@ -48,6 +48,9 @@ PATCHES = {
     "grow-then-edit": "@@\nvar x expression\n@@\n-foo(x)\n+pad(\"" + "L" * 300 + "\", x)\n\n@@\nvar y expression\nvar s expression\n@@\n-pad(s, y)\n+padded(y)\n",
     # the package clause itself rewritten (its comments are the file's, whatever happens to the name)
     "pkg-rename": "@@\nvar x expression\n@@\n-package p\n+package renamed\n\n foo(x)\n",
+    # comments on the '+' side that go/parser attaches to nodes (Doc / Comment fields of fields, specs and declarations)
+    "field-plus-comments": "@@\n@@\n type T struct {\n   ...\n-  Old int\n+  // New: doc from the patch.\n+  New int // was Old (patch)\n   ...\n }\n",
+    "var-to-func-plus-doc": "@@\nvar v identifier\nvar x expression\n@@\n-var v = wrap(x)\n+// v: doc from the patch.\n+func v() int { return wrap(x) } // trailing from the patch\n",
     "two-changes": "@@\nvar x expression\n@@\n-foo(x)\n+bar(x)\n\n@@\nvar y expression\n@@\n-bar(y)\n+baz(y, 1)\n",
     "three-changes": "@@\nvar x expression\n@@\n-keep(x)\n+kept(x)\n\n@@\n@@\n-func target() error {\n+func renamed() error {\n   ...\n }\n\n@@\nvar y expression\n@@\n-foo(y)\n+bar(y)\n",
 }
@@ -140,7 +143,7 @@ def gen_file(rng, pn=""):
         need = NEED.get(pk)
         site = rng.random() < 0.45 or pk is not None
         if pk is not None:
-            kind = 0.75 if pk in ("type-kind", "field") else 0.9 if pk in ("var-to-const", "var-to-func") else 0.99 if pk == "const-block-to-var" else 0.1
+            kind = 0.75 if pk in ("type-kind", "field", "field-plus-comments") else 0.9 if pk in ("var-to-const", "var-to-func", "var-to-func-plus-doc") else 0.99 if pk == "const-block-to-var" else 0.1
         if kind < 0.7:
             name = "target" if (site and (rng.random() < 0.3 or (pk or "").startswith(("func-", "three-", "method-")))) else "f%d" % i
             if name == "target" and pk == "method-to-func":
@@ -251,6 +254,18 @@ def main():
         else:
             pn = names[k % len(names)]
             cases.append((pn, PATCHES[pn], gen_file(rng, pn)))
+        if k % 23 == 7:
+            # the same file without any comment (nothing may appear from nowhere: the comments of '+' lines are not emitted)
+            pn0, pt0, f0 = cases[-1]
+            bare = re.sub(r"(?s)/\*.*?\*/", "", f0)
+            bare = "\n".join(l for l in (re.sub(r"[ \t]*//.*$", "", l0) for l0 in bare.split("\n")))
+            cases.append((pn0 + "[no comments]", pt0, re.sub(r"\n{3,}", "\n\n", bare)))
+            for extra in ("plus-comments", "field-plus-comments", "var-to-func-plus-doc"):
+                if pn0 != extra:
+                    f1 = gen_file(rng, extra)
+                    b1 = re.sub(r"(?s)/\*.*?\*/", "", f1)
+                    b1 = "\n".join(re.sub(r"[ \t]*//.*$", "", l0) for l0 in b1.split("\n"))
+                    cases.append((extra + "[no comments]", PATCHES[extra], re.sub(r"\n{3,}", "\n\n", b1)))
     # golden cases with comments in the inputs
     for c in corpus.golden():
         for fn, data in sorted(c["inputs"].items()):
